@@ -123,6 +123,17 @@ EXTENT_LINES = [
 ]
 
 
+# extent lines a hand-edited or hostile descriptor may carry: the size token
+# is not a plain decimal, is missing, or the line stops early
+EXTENT_ODD = [
+    'RW 0x2000 FLAT "disk-flat.vmdk" 0', 'RW SPARSE "disk.vmdk"',
+    'RW 1e6 SPARSE "disk.vmdk"', 'RW -1 SPARSE "disk.vmdk"', 'RW',
+    'RW 2048', 'RDONLY 99999999999999999999999999 SPARSE "d.vmdk"',
+    'RW 2048.5 SPARSE "disk.vmdk"', 'RW 2048 SPARSE', 'NOACCESS  7 ZERO',
+    'RW\t2048\tSPARSE\t"disk.vmdk"',
+]
+
+
 def gen_desc_lines(rng, create='monolithicSparse'):
     key = rng.choice(('createType', 'createType', 'CREATETYPE', 'createtype',
                       'CreateType'))
@@ -140,6 +151,8 @@ def gen_desc_lines(rng, create='monolithicSparse'):
         lines += ['', '# Extent description']
     for _ in range(rng.randint(1, 3)):
         lines.append(rng.choice(EXTENT_LINES))
+    if rng.random() < 0.12:
+        lines.insert(rng.randint(0, len(lines)), rng.choice(EXTENT_ODD))
     if rng.random() < 0.8:
         lines += ['', '# The Disk Data Base', '#DDB', '']
         lines += ['ddb.virtualHWVersion = "4"',
@@ -164,6 +177,9 @@ def gen_vmdk(rng, footer=None):
         p['footer'] = True
     if rng.random() < 0.12:
         p['desc_nl'] = '\r\n'       # descriptors written on Windows
+    if rng.random() < 0.3:
+        p['hdr_tail'] = rng.choice(('inc', 'ff', 'rand:%d' % rng.randrange(
+            1 << 16)))
     return p
 
 
